@@ -16,7 +16,7 @@ def write_evidence(prop, tier, seed, hmod, jobs, rows, main_rows, decided, incon
     functions = sorted(set(getattr(hmod, 'FUNCTIONS_ENCODED', [])) |
                        {f for r in rows for f in (r.get('functions') or [])})
     validated = int(sanity or 0) + n_replays + sum(int(r.get('validated', 0) or 0) for r in rows) + \
-        sum(int(v) for v in shim_selftests.values())
+        sum(int(v) for v in shim_selftests.values() if not isinstance(v, str))
     samples = []
     for r in main_rows:
         s = {k: r[k] for k in ('obligation', 'status', 'bounds', 'engine', 'paths', 'queries', 'wall_s',
